@@ -15,11 +15,12 @@ def run(chk):
     rng = random.Random(chk.seed)
     n = 600 if chk.tier == 'quick' else 10000
     m = 4 if chk.tier == 'quick' else 16
-    chk.rule = ('file-mode inputs judged whenever the parser says Ok: %d generated valid programs, 1-3 token deletions / insertions / duplications / swaps of them and of the corpus files (%d mutants each), token soup, the file-mode exhaustive context streams; '
+    chk.rule = ('file-mode inputs judged whenever the parser says Ok: %d generated valid programs, 1-3 token deletions / insertions / duplications / swaps of them and of the corpus files (%d mutants each), token soup, the file-mode exhaustive context streams, and EVERY single-token deletion, duplication and adjacent swap of every corpus file; '
                 'oracle: identifier and literal leaves of the tree = identifier and literal tokens of the source (text, offset, each once, in order); brackets balanced; package clause first, imports before other declarations.  non-trivial: accepted inputs; distinct by text.' % (n, m))
     progs = [('file', goprint.canonical(toks)) for tree, toks in genprog.programs(rng, n)]
     files = [c for c in streams.snippet_cases() if c[0] == 'file']
     cases = progs + files + streams.mutants(rng, progs[:: 2] + files, m, 3) + streams.soup(rng, 5000 * m, modes=('file',)) + [(mo, s) for _, mo, s in streams.contexts(chk.tier != 'quick') if mo == 'file']
+    cases += streams.single_edits(files)            # every single-token deletion / duplication / adjacent swap of every corpus file
     cases = streams.dedup(cases)
     a, b = run_both(chk, 'parse', cases, robust=True)
     acc = [(c, outcome(x)[1]) for c, x in zip(cases, a) if outcome(x)[0] == 'ok']
